@@ -48,6 +48,15 @@ def cases(shard, rnd):
                'kinds': [f.kind for f in frames],
                'channels': [f.channel for f in frames],
                'tails': rnd.sample(_tails(rnd, frames[0].data), 4)}
+    # frames larger than the default frame-max are valid (frame-max is
+    # negotiated); they must be consumed exactly like any other frame
+    for n in ((131073, 262136) if shard['i'] < 2 else ()):
+        big = wire.body_frame(rnd, n)
+        small = [wire.any_frame(rnd) for _ in range(2)]
+        frames = [small[0], big, small[1]]
+        yield {'type': 'stream', 'frames': [bytes(f.data) for f in frames],
+               'kinds': [f.kind for f in frames],
+               'channels': [f.channel for f in frames], 'tails': [b'\xce']}
     for _ in range(shard['mut_frames']):
         fr = wire.any_frame(rnd, allow_refuse=True)
         inputs = []
@@ -101,7 +110,17 @@ def _run_stream(case, rec):
         rec.ev()
         u = common.lib_unmarshal(f)
         if not u.ok:
-            # acceptance of well-formed frames is C05's business
+            if case['kinds'][i] in ('body', 'heartbeat', 'protocol'):
+                # any byte content is a valid body: a refusal means the
+                # buffer that starts with a complete valid frame was not
+                # decoded at all
+                rec.violation('valid-frame-refused:%s' % case['kinds'][i],
+                              'complete valid %s frame of %d bytes: %s'
+                              % (case['kinds'][i], len(f), u.describe()),
+                              {'type': 'mutants', 'inputs':
+                               [f if len(f) < 5000 else f[:64]], 'tail': b''})
+                return
+            # acceptance of exotic method/header content is C05's business
             rec.count('stream_frame_not_accepted')
             return
         fail = boundary.envelope_failure(f, u.value)
